@@ -4,6 +4,7 @@ import vlib
 import c08_raft as R
 import c08_walk as W
 import c09_lin as L
+import c09_scen as CS
 
 ID = "C09"
 THEOREMS = "Properties/C09.v"
@@ -46,7 +47,7 @@ def run_fixed(h, case):
     picks = case.get("picks")
     pm = R.pick_map(h, params["n"]) if (picks is None and any(e[0] == "EClientSnd" for e in events)) else {}
     w = h.new(params)
-    tracker = R.CommitTracker(w)
+    acks = CS.AckTracker()
     steps, failures = [], []
     for k, ev in enumerate(events):
         pick = picks[k] if picks is not None else (pm.get(ev[2], 0) if ev[0] == "EClientSnd" else 0)
@@ -57,6 +58,11 @@ def run_fixed(h, case):
         if code >= 2:
             failures.append({"signature": "generated-code-" + outcome.replace(":", "-") + ":" + out["label"],
                              "what": "%s in %s: %s" % (outcome, out["label"], out.get("err", "")[:200])})
+            break
+        lost = acks.check(w)
+        if lost:
+            failures.extend({"signature": sig, "what": "after step %d (%s): %s" % (k, " ".join(map(str, oev)), what)} for sig, what in lost)
+            steps[-1] = (oev, code, R.hash_digest(d), d)
             break
     return w, steps, failures
 
@@ -76,12 +82,20 @@ def run(ctx):
     t0 = time.time()
     h = R.Harness("c09")
     records = []     # (payload, params, steps, hist, world, pylin)
-    stats = {"histories": 0, "non_linearizable": 0, "ops_completed": 0, "retries": 0}
+    stats = {"histories": 0, "non_linearizable": 0, "ops_completed": 0, "retries": 0, "live_scenarios_differing_from_corpus": 0}
     try:
         if ctx.replay:
             fixed = [json.load(open(ctx.replay))["case"]]
         else:
             fixed = corpus()
+        if not ctx.replay:
+            # live scenario scripts (lib/c09_scen.py) on the tree under test; one whose event list is the archived one is not run twice
+            have = {c.get("name"): c["events"] for c in fixed}
+            for c in CS.build_all(h):
+                if have.get(c["name"]) != c["events"]:
+                    c["name"] += "+live"
+                    fixed.append(c)
+                    stats["live_scenarios_differing_from_corpus"] += 1
         for c in fixed:
             w, steps, failures = run_fixed(h, c)
             payload = {k: v for k, v in c.items() if k in ("params", "events", "picks", "name")}
@@ -98,11 +112,18 @@ def run(ctx):
                 params = W.gen_params(rng, ctx.tier, for_c09=True)
                 profile = rng.choice(["retry", "retry", "retry", "service", "lossy", "crash", "steady", "elections"])
                 prefix = W.scripted_election(params["n"], rng.randint(1, params["n"])) if rng.random() < 0.95 else ()
-                res = W.walk(h, rng, params, rng.randint(lo, hi), profile, prefix=prefix)
+                acks, lost = CS.AckTracker(), []
+
+                def on_step(w_, oev_, out_):
+                    if not lost:
+                        lost.extend(acks.check(w_))
+                res = W.walk(h, rng, params, rng.randint(lo, hi), profile, prefix=prefix, on_step=on_step)
                 payload = {"params": params, "events": res.intended, "picks": res.picks, "profile": profile}
                 for f in res.failures:
                     if f["signature"].startswith("generated-code-"):
                         ctx.failures.append({"signature": f["signature"], "what": f["what"], "case": payload})
+                for sig, what in lost:
+                    ctx.failures.append({"signature": sig, "what": what, "case": payload})
                 records.append((payload, params, res.steps, list(res.world.hist), res.world, {}))
     finally:
         h.close()
@@ -148,8 +169,10 @@ def run(ctx):
             for k, code in enumerate(codes):
                 payload, params, steps, hist, w, expect = part[k]
                 if code & 4 == 0:
+                    nmis = sum(1 for b in ctx.breaks if "correspondence" in b["what"])
                     ctx.breaks.append({"what": "correspondence C08/Model.v vs generated raftkvs.go differs on a C09 walk",
-                                       "case": payload, "model": R.coq_first_mismatch("C09_one", params, steps)})
+                                       "case": payload,
+                                       "model": R.coq_first_mismatch("C09_one", params, steps) if nmis < 2 else "(first mismatch located for the first two cases only)"})
                 elif code & 2 == 0:
                     ctx.breaks.append({"what": "history of the model differs from the history observed at the Go clients",
                                        "case": payload, "impl": hist})
